@@ -34,7 +34,7 @@ type c01Case struct {
 var c01AltKinds = []string{
 	"none", "neutral",
 	"content", "content", "content", "content", "payload-bytes", "inmemory",
-	"sig-drop", "sig-flip", "sig-swap", "sig-retarget", "sig-empty", "sig-junk-first",
+	"sig-drop", "sig-flip", "sig-swap", "sig-retarget", "sig-empty", "sig-junk-first", "sig-dup-for-missing", "inmemory",
 	"keys-empty", "keys-add-nonsigner", "keys-stranger", "keys-pubswap", "keys-subset", "keys-unknown-type", "keys-unknown-type",
 }
 
@@ -114,7 +114,7 @@ func c01Eval(c c01Case, r *hx.Rec, enum *hx.TreeMutation) error {
 		w.Layout.Tamper = alt.Mut
 	case "keys-empty":
 		w.VerifierKeys = nil
-	case "keys-add-nonsigner":
+	case "keys-add-nonsigner", "sig-dup-for-missing":
 		if signerSet[alt.Other] {
 			applied = false
 		} else {
@@ -255,6 +255,25 @@ func c01Eval(c c01Case, r *hx.Rec, enum *hx.TreeMutation) error {
 			top["signatures"] = []any{}
 			return true
 		})
+	case "sig-dup-for-missing":
+		// a supplied key never signed; the entry of a key that did is repeated, so that the list holds
+		// as many valid entries as keys were supplied
+		if !applied {
+			break
+		}
+		applied, err = editFile(b.LayoutPath, hx.JSONStyle{Indent: 1}, func(top map[string]any) bool {
+			s := sigField(top)
+			if len(s) == 0 {
+				return false
+			}
+			dup := s[alt.A%len(s)]
+			out := append([]any{}, s...)
+			for i := 0; i < 1+alt.B%3 || len(out) < len(w.VerifierKeys); i++ {
+				out = append(out, dup)
+			}
+			top["signatures"] = out
+			return true
+		})
 	case "sig-junk-first":
 		applied, err = editFile(b.LayoutPath, hx.JSONStyle{Indent: 1}, func(top map[string]any) bool {
 			s := sigField(top)
@@ -306,7 +325,21 @@ func c01Eval(c c01Case, r *hx.Rec, enum *hx.TreeMutation) error {
 			applied = false
 			break
 		}
-		inMemory = &intoto.Metablock{Signed: lay, Signatures: mb.Signatures}
+		switch alt.B % 3 {
+		case 0:
+			inMemory = &intoto.Metablock{Signed: lay, Signatures: mb.Signatures}
+		case 1:
+			// the object was verified before (honestly), then altered in place
+			_ = b.VerifyWith(mb, nil, nil)
+			mb.Signed = lay
+			inMemory = mb
+		default:
+			// ... or copied by value after a verification, and the copy altered
+			_ = b.VerifyWith(mb, nil, nil)
+			cp := *mb
+			cp.Signed = lay
+			inMemory = &cp
+		}
 	}
 	if err != nil {
 		return fmt.Errorf("harness: edit: %v", err)
